@@ -1,7 +1,7 @@
 """Per-property configuration of ./check (tag names, non-triviality rule, assumptions)."""
 
 NOT_APPLICABLE = {}
-HOOK_COMMITS = []
+HOOK_COMMITS = ["7a2232a"]
 
 PROPS = {
     "C10": {
@@ -140,5 +140,34 @@ PROPS = {
                  "second insert claiming an existing name. Non-trivial: names occur in >= 2 UUID positions of the transaction."),
         "tags": {1: "operation results", 2: "database contents after the transaction", 3: "reference index (GetReferences)"},
         "assumptions": ["names are not syntactically valid UUIDs"],
+    },
+    "C07": {
+        "level_text": ("Theorems (Props/C07.v, axiom-free): the notification computed from the database before/after a committed transaction, applied by a peer (update: new/old rows; "
+                       "update2: insert / modify-difference with set toggle and map add-replace-remove / delete) to the monitored part before, yields the monitored part "
+                       "after; an entry exists iff the monitored part of the row changed; a modify carries exactly the changed monitored columns; nothing is sent without net "
+                       "effect; only selected kinds and columns; one slot per transaction in commit order, nothing for failed ones. Tied to the code by a real OvsdbServer on a "
+                       "unix socket with raw JSON-RPC peers holding 1..3 monitors (monitor / monitor_cond / monitor_cond_since, random table/column subsets, omitted columns, "
+                       "omitted or random select flags, established at a random point): every message and every initial dump is compared with the model."),
+        "level_note": ("Trusted: Coq kernel + vm_compute, std++; Go harness incl. its own update2 application used as direct oracle; cenkalti/rpc2 and the socket layer. The "
+                       "'where' member of monitor_cond requests is not exercised (the server ignores it)."),
+        "rule": ("histories of 2..6 (thorough ..12) transactions (15% failing, 5% dangling references; schema with strong/weak references, GC and weak pruning) sent as "
+                 "'transact' requests by a writer peer; 1..3 monitoring peers as above. Non-trivial: a committed transaction produced a notification for some monitor."),
+        "tags": {1: "operation results", 2: "database contents", 4: "a monitor's message for the transaction", 5: "a monitor's initial contents"},
+        "assumptions": ["synchronous delivery: the server calls each monitor and waits for its reply before answering transact (so messages are complete when transact returns)"],
+    },
+    "C01": {
+        "level_text": ("Theorems (Props/C01.v, axiom-free), protocol level: the initial contents mirror the database at the request; every notification keeps the cache equal "
+                       "to the monitored part (both encodings); hence after any history following the request on any state the cache is exactly the monitored part "
+                       "(induction over the history, resting on C07's exact-difference theorem); a notification deferred until the initial contents are applied gives "
+                       "the same cache. Tied to the code end to end: real server, real client with 1..2 monitors on disjoint tables (all three methods, column subsets, "
+                       "established at random points), a writer peer and the client itself committing; after every transaction Cache().Table(t).Rows() is compared with the "
+                       "model's monitored part and with Database.List; 35% of monitor set-ups are paused at monitor.replyReceived while the next transaction is notified. "
+                       "Partial: goroutine interleavings other than the forced window are not explored; additional monitors on tables already monitored are excluded."),
+        "level_note": ("Trusted: Coq kernel + vm_compute, std++; Go harness; rpc2 in blocking mode delivering requests in order; the 'verif' pause hook. Quiescence is a fact of "
+                       "the protocol (the server calls each monitor synchronously before answering transact), not a sleep."),
+        "rule": ("histories of 2..7 (thorough ..14) transactions (8% failing) after a populating transaction, 30% issued by the monitoring client itself and read back "
+                 "immediately; monitors as above. Non-trivial: after the monitor is established the history changes >= 1 monitored row and deletes >= 1."),
+        "tags": {1: "operation results", 2: "database contents", 6: "client cache vs monitored part of the database"},
+        "assumptions": ["two monitors of one client watch disjoint tables", "every kind of change is selected (the client API always selects all)"],
     },
 }
